@@ -46,8 +46,7 @@ PlainForms == {"bare", "named"}
 PlansPairs == { <<"map_query", "map_query">>,
                 <<"filter_query", "flatmap_body">>,
                 <<"before_generate_body", "map_case">>,
-                <<"flatmap_case", "before_generate_query">>,
-                <<"filter_case", "map_body">> }
+                <<"flatmap_case", "before_generate_query">> }
 PlansTriples == { <<"map_query", "map_query", "filter_query">>,
                   <<"before_generate_body", "flatmap_case", "map_case">>,
                   <<"filter_case", "before_generate_case", "flatmap_query">> }
